@@ -227,6 +227,7 @@ restart:
 			if (es.kind != EK_STREAM_MT && es.kind != EK_STREAM_ST && es.kind != EK_RAW) continue;
 			Chain *c = &es.chain;
 			lzma_filter *f = es.chain.f;
+			Chain saved_chain2 = es.chain2;   // restored on refusal: the encoder may still be using the old contents
 			if (op.get("chain2")) {
 				// switch to the alternative chain (different shape)
 				c = &es.chain2;
@@ -284,6 +285,7 @@ restart:
 			else {
 				++res.updates_refused; v.count("reach.filters_update_refused");
 				c->lz = saved;
+				if (c == &es.chain2) es.chain2 = saved_chain2;
 				if (ur != LZMA_OPTIONS_ERROR && ur != LZMA_PROG_ERROR && ur != LZMA_MEM_ERROR) { res.error = fmt("filters_update returned %s", ret_name(ur)); res.error_cls = "update-status"; break; }
 			}
 		} else if (op.name == "progress") {
